@@ -7,6 +7,7 @@
 //	rmqos a=<ip8hex>                                 => ok [e-=<key>] [i-=<key>]
 //	defpolicy <name> <down> <up> <burst> <prio>      => ok | err …          radius.PolicyManager.AddPolicy (defines or REdefines)
 //	rmpolicy <name>                                  => ok                  PolicyManager.RemovePolicy
+//	getpolicy <name>                                 => <down> <up> <burst> <prio> | none     PolicyManager.GetPolicy
 //	setpolicy a=<ip8hex> <name>                      => ok [e=…] [i=…] | err policy_not_found:_<name>   Manager.SetSubscriberPolicy
 //	count                                            => <n>                 Manager.GetSubscriberCount
 //	raw <e|i> <keyhex> <valhex>                      => ok | err …          (entry put directly, any bucket state)
@@ -337,6 +338,15 @@ func (r *run) Do(op string) string {
 		}
 		r.pm.RemovePolicy(t[1])
 		return "ok"
+	case "getpolicy":
+		if len(t) != 2 {
+			return "badop"
+		}
+		p := r.pm.GetPolicy(t[1])
+		if p == nil {
+			return "none"
+		}
+		return fmt.Sprintf("%d %d %d %d", p.DownloadBPS, p.UploadBPS, p.BurstSize, p.Priority)
 	case "setpolicy":
 		if len(t) != 3 {
 			return "badop"
@@ -889,22 +899,93 @@ func genControl(r *rand.Rand) []string {
 		}
 		seq = append(seq, fmt.Sprintf("defpolicy %s %d %d %d %d", name, down, up, burst, r.Intn(8)))
 	}
+	// the current definition of every name, so that a REdefinition can change exactly one field
+	type pdef struct {
+		down, up uint64
+		burst    uint32
+		prio     int
+	}
+	cur := map[string]pdef{}
+	emitDef := func(name string, p pdef) {
+		cur[name] = p
+		someRate = p.down | 8
+		seq = append(seq, fmt.Sprintf("defpolicy %s %d %d %d %d", name, p.down, p.up, p.burst, p.prio))
+	}
+	redefOne := func(name string) {
+		p, ok := cur[name]
+		if !ok {
+			defpol(name)
+			p = pdef{}
+			f := strings.Fields(seq[len(seq)-1])
+			p.down, _ = strconv.ParseUint(f[2], 10, 64)
+			p.up, _ = strconv.ParseUint(f[3], 10, 64)
+			b, _ := strconv.ParseUint(f[4], 10, 32)
+			p.burst = uint32(b)
+			p.prio, _ = strconv.Atoi(f[5])
+			cur[name] = p
+			return
+		}
+		switch r.Intn(6) {
+		case 0:
+			p.down = pickRate(r)
+		case 1:
+			p.up = pickRate(r)
+		case 2:
+			p.prio = (p.prio + 1 + r.Intn(6)) % 8
+		case 3: // identical re-add
+		default: // ONLY the burst changes (tighter, looser, to or from the default 0)
+			nb := pickBurst(r)
+			if r.Intn(4) == 0 {
+				nb = 0
+			}
+			if nb == p.burst {
+				nb = p.burst/2 + 1
+			}
+			p.burst = nb
+		}
+		emitDef(name, p)
+	}
 	steps := 12 + r.Intn(30)
 	for i := 0; i < steps; i++ {
 		ip := ips[r.Intn(3)]
 		a := hex.EncodeToString(ip[:])
-		switch x := r.Intn(100); {
+		switch x := r.Intn(120); {
+		case x >= 100 && x < 112: // one field of a live policy changes, then it is re-applied to a live or a new subscriber
+			name := hx.Pick(r, polNames)
+			redefOne(name)
+			if r.Intn(3) == 0 {
+				seq = append(seq, "getpolicy "+name)
+			}
+			seq = append(seq, "setpolicy a="+a+" "+name)
+			probe(ip)
+			redefOne(name)
+			seq = append(seq, "getpolicy "+name)
+			seq = append(seq, "setpolicy a="+a+" "+name)
+			probe(ip)
+		case x >= 112 && x < 116: // remove, then add again under the same name
+			name := hx.Pick(r, polNames)
+			seq = append(seq, "rmpolicy "+name, "getpolicy "+name)
+			delete(cur, name)
+			redefOne(name)
+			seq = append(seq, "getpolicy "+name, "setpolicy a="+a+" "+name)
+			probe(ip)
+		case x >= 116:
+			seq = append(seq, "getpolicy "+hx.Pick(r, polNames))
 		case x < 22:
-			defpol(hx.Pick(r, polNames))
+			name := hx.Pick(r, polNames)
+			delete(cur, name)
+			redefOne(name)
 		case x < 50:
 			seq = append(seq, "setpolicy a="+a+" "+hx.Pick(r, polNames))
 			probe(ip)
 		case x < 60: // redefine, then re-apply the same name to a subscriber without removing it first
 			name := hx.Pick(r, polNames)
-			defpol(name)
+			delete(cur, name)
+			redefOne(name)
 			seq = append(seq, "setpolicy a="+a+" "+name)
 			probe(ip)
-			defpol(name)
+			delete(cur, name)
+			redefOne(name)
 			seq = append(seq, "setpolicy a="+a+" "+name)
 			probe(ip)
 		case x < 70:
@@ -918,7 +999,9 @@ func genControl(r *rand.Rand) []string {
 			seq = append(seq, "rmqos a="+a)
 			probe(ip)
 		case x < 83:
-			seq = append(seq, "rmpolicy "+hx.Pick(r, polNames))
+			name := hx.Pick(r, polNames)
+			delete(cur, name)
+			seq = append(seq, "rmpolicy "+name)
 		case x < 88:
 			seq = append(seq, "count")
 		default:
